@@ -259,14 +259,40 @@ def analyse(repo: Path):
                 if bad:
                     display.append({"file": fname, "line": n.lineno, "kind": "value of helper " + n.func.id + " used", "leaks": [n.func.id],
                                     "writes": [], "jumps": []})
-    return globs, defaults, display
+    # ---- in-place writes on the caller's inputs in the public entry point (flow-insensitive, with direct aliases)
+    input_writes = []
+    tree = trees.get("main.py")
+    if tree is not None:
+        for fn in ast.walk(tree):
+            if isinstance(fn, ast.FunctionDef) and fn.name == "minimize_lbfgsb":
+                params = {a.arg for a in fn.args.args + fn.args.kwonlyargs + fn.args.posonlyargs} & {"x0", "bounds", "checkpoint", "args"}
+                aliases = set(params)
+                changed = True
+                while changed:
+                    changed = False
+                    for n in ast.walk(fn):
+                        if isinstance(n, ast.Assign) and isinstance(n.value, (ast.Name, ast.Attribute, ast.Subscript)):
+                            b = base_name(n.value)
+                            # scalar fields of a checkpoint (fun, nit, nfev, ...) are immutable values: binding one is no alias
+                            if isinstance(n.value, ast.Attribute) and n.value.attr not in ("x", "jac", "hess_inv", "sk", "yk"):
+                                continue
+                            if b in aliases:
+                                for t in n.targets:
+                                    if isinstance(t, ast.Name) and t.id not in aliases:
+                                        aliases.add(t.id)
+                                        changed = True
+                for (b, line, how) in writes_in(fn):
+                    if b in aliases:
+                        input_writes.append(f"main.py:{line}:{how} on {b}")
+    display_extra = sorted(set(input_writes))
+    return globs, defaults, display, display_extra
 
 
 def lstr(xs: List[str]) -> str:
     return "[" + ", ".join('"' + x.replace('"', "'") + '"' for x in xs) + "]"
 
 
-def emit(globs, defaults, display) -> str:
+def emit(globs, defaults, display, input_writes) -> str:
     L = ["/- GENERATED by translate/state2lean.py from /repo/lbfgsb/*.py — do not edit. -/",
          "namespace Lbfgsb.Generated.State", "",
          "structure Global where", "  file : String", "  name : String", "  place : String", "  line : Nat",
@@ -281,7 +307,8 @@ def emit(globs, defaults, display) -> str:
     L.append(",\n".join(f'  {{ file := "{d["file"]}", func := "{d["func"]}", param := "{d["param"]}", line := {d["line"]}, writes := {lstr(d["writes"])}, escapes := {lstr(d["escapes"])} }}' for d in defaults))
     L += ["]", "", "def display : List Display := ["]
     L.append(",\n".join(f'  {{ file := "{d["file"]}", line := {d["line"]}, kind := "{d["kind"]}", leaks := {lstr(d["leaks"])}, writes := {lstr(d["writes"])}, jumps := {lstr(d["jumps"])} }}' for d in display))
-    L += ["]", "", "end Lbfgsb.Generated.State", ""]
+    L += ["]", "", "/-- in-place modifications, in `minimize_lbfgsb`, of `x0`, `bounds`, `checkpoint`, `args` or of a name bound directly to (a part of) one of them -/",
+          f"def inputWrites : List String := {lstr(input_writes)}", "", "end Lbfgsb.Generated.State", ""]
     return "\n".join(L)
 
 
